@@ -57,6 +57,17 @@ VARS = ["a", "b", "c"]
 ITER = {"maxerror": 1e-15, "maxiter": 1000}
 TOL = 1e-12
 V0 = 0.2  # var(u) = V0 u^2
+# field-dependent variance var(u) = g0 + g2 u^2 (var' = 2 g2 u) with deterministic part du/dt = b + RATE u
+FD_FORMS = {
+    "field-dependent": {"g0": 0.0, "g2": V0, "b": 0.0},
+    "field-dependent-nodiff": {"g0": 0.0, "g2": V0, "b": 0.0},
+    "field-dependent-g0g2": {"g0": 0.1, "g2": 0.25, "b": 0.0},  # var' vanishes at u = 0, var does not
+    "field-dependent-drift": {"g0": 0.0, "g2": V0, "b": 0.3},  # var and var' vanish at u = 0, the state leaves 0
+}
+# initial-state kinds; the special ones (exact zeros, constants) are where code that probes the example
+# state for "is the noise additive / absent?" goes wrong
+INITS = ["generic", "zero", "const", "mixed"]
+INIT_NOISE_KINDS = ["scalar", "field-dependent", "field-dependent-g0g2", "field-dependent-drift"]
 
 GRIDS = [
     ("cart", ["cart", [[0, 1]], [4], [True]]),  # uniform, V = 1/4 (a unit grid hides powers of V)
@@ -79,6 +90,11 @@ GRIDS_MORE = [
 
 BOUNDS = {
     "quick": {"dts": DTS, "steps": STEPS, "seeds": SEEDS},
+    "thorough": {"dts": DTS + [1 / 3], "steps": STEPS + [5], "seeds": SEEDS},
+}
+# bounds of the sub-alphabet with special initial states (update + generator state only, see `light`)
+BOUNDS_INIT = {
+    "quick": {"dts": [0.1], "steps": STEPS, "seeds": SEEDS},
     "thorough": {"dts": DTS + [1 / 3], "steps": STEPS + [5], "seeds": SEEDS},
 }
 
@@ -120,8 +136,8 @@ def noise_specs(kind: str, ranks: list, dim: int, tier: str) -> list:
         if coll:
             out.append({"kind": "field-list", "cls": "pde", "noise": FIELD_LIST[:nf]})
             out.append({"kind": "field-dict", "cls": "pde", "noise": {VARS[0]: 0.4}})  # others: 0
-    out.append({"kind": "field-dependent", "cls": "mul", "noise": V0})
-    out.append({"kind": "field-dependent-nodiff", "cls": "mulnodiff", "noise": V0})
+    for k, form in FD_FORMS.items():
+        out.append({"kind": k, "cls": "mulnodiff" if k.endswith("nodiff") else "mul", "noise": form["g2"], **form})
     out.append({"kind": "tiny", "cls": "sde", "noise": 1e-15})
     return out
 
@@ -138,21 +154,25 @@ def build_cases(tier: str, vseed: int, backend: str = "numpy") -> list:
         dim = geometry(spec)["dim"]
         for kind, ranks in kinds.items():
             for ns in noise_specs(kind, ranks, dim, tier):
-                for interp in ALPHA:
-                    for solver in SOLVERS:
-                        cases.append(
-                            {
+                for init in INITS:
+                    if init != "generic" and ns["kind"] not in INIT_NOISE_KINDS:
+                        continue  # the state does not enter the noise of the other kinds
+                    for interp in ALPHA:
+                        for solver in SOLVERS:
+                            c = {
                                 "gname": gname,
                                 "grid": spec,
                                 "state": kind,
                                 "ranks": ranks,
                                 "noise": ns,
+                                "init": init,
                                 "interp": interp,
                                 "solver": solver,
                                 "backend": backend,
                                 "vseed": vseed,
                             }
-                        )
+                            c.update(BOUNDS[tier] if init == "generic" else dict(BOUNDS_INIT[tier], light=True))
+                            cases.append(c)
     return cases
 
 
@@ -173,51 +193,63 @@ def lib():
     from pde.pdes.pde import PDE
 
     class Decay(PDEBase):
-        """du/dt = a u (deterministic reference)"""
+        """du/dt = b + a u (deterministic reference)"""
 
-        def __init__(self, a):
+        def __init__(self, a, b=0.0):
             super().__init__()
-            self.a = a
+            self.a, self.b = a, b
 
         def evolution_rate(self, state, t=0):
-            return self.a * state
+            if self.b == 0:
+                return self.a * state
+            return self.a * state + self.b
 
         def make_evolution_rate(self, state, backend):
-            a = self.a
+            a, b = self.a, self.b
+            if b == 0:
 
-            def rhs(x, t):
-                return a * x
+                def rhs(x, t):
+                    return a * x
+
+            else:
+
+                def rhs(x, t):
+                    return a * x + b
 
             return rhs
 
     class DecaySDE(SDEBase):
-        """du/dt = a u + additive noise handled entirely by `SDEBase`"""
+        """du/dt = b + a u + additive noise handled entirely by `SDEBase`"""
 
-        def __init__(self, a, **kw):
+        def __init__(self, a, b=0.0, **kw):
             super().__init__(**kw)
-            self.a = a
+            self.a, self.b = a, b
 
         evolution_rate = Decay.evolution_rate
         make_evolution_rate = Decay.make_evolution_rate
 
     class MulSDE(DecaySDE):
-        """du/dt = a u + noise of variance v0 u^2 (field dependent)"""
+        """du/dt = b + a u + noise of variance g0 + g2 u^2 (field dependent)"""
 
         provide_diff = True
 
+        def __init__(self, a, b=0.0, g0=0.0, g2=V0, **kw):
+            super().__init__(a, b, noise=g2, **kw)  # (a non-zero `noise` makes `is_sde` true)
+            self.g0, self.g2 = float(g0), float(g2)
+
         def make_noise_variance(self, state, *, backend, ret_diff=False):
-            v0 = float(self.noise)
+            g0, g2 = self.g0, self.g2
             if ret_diff:
                 if not self.provide_diff:
                     raise NotImplementedError("C13-harness: derivative of the variance is not available")
 
                 def noise_var_diff(x, t):
-                    return v0 * x**2, 2 * v0 * x
+                    return g0 + g2 * x**2, 2 * g2 * x
 
                 return noise_var_diff
 
             def noise_var(x, t):
-                return v0 * x**2
+                return g0 + g2 * x**2
 
             return noise_var
 
@@ -246,7 +278,9 @@ def cell_volumes(np, spec):
     return (math.pi * (r[1:] ** 2 - r[:-1] ** 2))[:, None] * np.full(geo["shape"][1], geo["dx"][1])[None, :]
 
 
-def make_state(L, grid, kind, ranks, vseed):
+def make_state(L, grid, kind, ranks, vseed, init="generic"):
+    """generic: +-[0.5, 1.5] from VERIF_SEED; zero; const: 0.75 everywhere; mixed: generic with every other
+    entry (in memory order, per field) exactly zero"""
     np = L["np"]
     cls = {0: L["ScalarField"], 1: L["VectorField"], 2: L["Tensor2Field"]}
     rng = np.random.default_rng([12345, int(vseed)])
@@ -254,6 +288,14 @@ def make_state(L, grid, kind, ranks, vseed):
     for r in ranks:
         shape = (grid.dim,) * r + tuple(grid.shape)
         data = rng.uniform(0.5, 1.5, shape) * np.where(rng.random(shape) < 0.5, -1.0, 1.0)
+        if init == "zero":
+            data = np.zeros(shape)
+        elif init == "const":
+            data = np.full(shape, 0.75)
+        elif init == "mixed":
+            data.flat[::2] = 0.0
+        elif init != "generic":
+            raise ValueError(init)
         fields.append(cls[r](grid, data))
     if kind.startswith("coll"):
         return L["FieldCollection"](fields)
@@ -292,46 +334,74 @@ def make_eq(L, case, rng, *, deterministic=False):
         if deterministic:
             return L["PDE"](rhs)
         return L["PDE"](rhs, noise=ns["noise"], noise_interpretation=interp, rng=rng)
+    b = ns.get("b", 0.0)
     if deterministic:
-        return L["Decay"](RATE)
-    cls = {"sde": "DecaySDE", "mul": "MulSDE", "mulnodiff": "MulSDENoDiff"}[ns["cls"]]
-    return L[cls](RATE, noise=ns["noise"], noise_interpretation=interp, rng=rng)
+        return L["Decay"](RATE, b)
+    if ns["cls"] == "sde":
+        return L["DecaySDE"](RATE, noise=ns["noise"], noise_interpretation=interp, rng=rng)
+    cls = {"mul": "MulSDE", "mulnodiff": "MulSDENoDiff"}[ns["cls"]]
+    return L[cls](RATE, b, ns["g0"], ns["g2"], noise_interpretation=interp, rng=rng)
 
 
-def oracle(np, u0, V, a, var_of, alpha, solver, dt, xis, *, implicit_drift=False, ret_info=False):
-    """the documented update, step by step
+def variance_model(np, case, u0, grid):
+    """u -> (var, var', d sqrt(var)/du) of the case, full data shape; the last one only feeds error bounds"""
+    ns = case["noise"]
+    if ns["cls"] in ("mul", "mulnodiff"):
+        g0, g2 = ns["g0"], ns["g2"]
+
+        def var_of(u):
+            var = g0 + g2 * u**2
+            if g0 == 0:  # sqrt(var) = sqrt(g2) |u|
+                dsq = np.full_like(u, math.sqrt(g2))
+            else:
+                dsq = g2 * u / np.sqrt(var)
+            return var, 2 * g2 * u, dsq
+
+        return var_of, None
+    var_comp = full_variances(np, ns, case["state"], case["ranks"], grid.dim, grid.num_axes)
+    zeros = np.zeros_like(u0)
+    var_arr = var_comp + zeros
+
+    def var_of(u):
+        return var_arr, zeros, zeros
+
+    return var_of, var_comp
+
+
+def oracle(np, u0, V, a, var_of, alpha, solver, dt, xis, *, b=0.0, implicit_drift=False, ret_info=False):
+    """the documented update for du/dt = b + a u + noise, step by step; one normal array per step, whatever
+    the variance happens to be at that step
 
     With ``ret_info`` also returns the largest magnitude met on the way and, for the semi-implicit scheme,
     ``growth`` = sum over the steps k of the factor by which an error made in step k is amplified until the
-    end (the maps are local: additive noise -> (1 - a dt)^-(steps - k) <= 1; variance ~ u^2 -> the step is
-    homogeneous of degree one in u, so the factor is exactly |u_final / u_k| per component)."""
+    end.  The maps are local, so the factor is the product over the later steps j of
+    |d u_{j+1} / d u_j| = |1 + xi_j sqrt(dt / V) d sqrt(var)/du| / (1 - a dt), maximised over the components."""
     u = u0.copy()
     scale = float(np.max(np.abs(u)))
-    after = []
-    homogeneous = False
+    jac = []
     for xi in xis:
-        var, dvar = var_of(u)
-        homogeneous = homogeneous or bool(np.any(dvar != 0))
+        var, dvar, dsq = var_of(u)
         if solver == "euler":
-            u = u + dt * (a * u) + np.sqrt(var * dt / V) * xi + 0.5 * alpha * dt * dvar / V
+            u = u + dt * (b + a * u) + np.sqrt(var * dt / V) * xi + 0.5 * alpha * dt * dvar / V
         elif solver == "milstein":
             dW = math.sqrt(dt) * xi
-            u = u + dt * (a * u) + np.sqrt(var / V) * dW + 0.5 * alpha * dt * dvar / V + 0.25 * dvar / V * (dW**2 - dt)
-        else:  # u' = (u + incr) + dt a u'
+            u = (u + dt * (b + a * u) + np.sqrt(var / V) * dW + 0.5 * alpha * dt * dvar / V
+                 + 0.25 * dvar / V * (dW**2 - dt))
+        else:  # u' = (u + incr) + dt (b + a u')
             start = u + np.sqrt(var * dt / V) * xi
             if implicit_drift:
                 start = start + 0.5 * alpha * dt * dvar / V
-            u = start / (1 - a * dt)
-        after.append(u)
+            jac.append(np.abs(1 + xi * np.sqrt(dt / V) * dsq) / (1 - a * dt) + 0 * u)
+            u = (start + dt * b) / (1 - a * dt)
         scale = max(scale, float(np.max(np.abs(u))))
     if not ret_info:
         return u
     growth = float(len(xis))
-    if solver == "implicit" and homogeneous:
-        with np.errstate(all="ignore"):
-            growth = float(sum(np.max(np.abs(u / uk)) for uk in after))
-        if not math.isfinite(growth):
-            growth = math.inf
+    if solver == "implicit":
+        growth, amp = 0.0, np.ones_like(u)
+        for j in reversed(jac):  # error of step k is amplified by the steps after it
+            growth += float(np.max(amp))
+            amp = amp * j
     return u, {"scale": scale, "growth": growth}
 
 
@@ -380,7 +450,9 @@ def _close(np, got, exp, tol=TOL, slack=0.0):
 
 
 def _label(case):
-    return f"{case['gname']}|{case['state']}|{case['noise']['kind']}|{case['interp']}|{case['solver']}"
+    init = case.get("init", "generic")
+    return (f"{case['gname']}|{case['state']}|{case['noise']['kind']}|{case['interp']}|{case['solver']}"
+            + ("" if init == "generic" else f"|init={init}"))
 
 
 # ----------------------------------------------------------------------------------------------
@@ -406,24 +478,15 @@ def sde_case(case):
     V = cell_volumes(np, case["grid"])
     if not np.allclose(V, grid.cell_volumes, rtol=1e-13, atol=0):
         raise AssertionError(f"oracle geometry disagrees with grid.cell_volumes: {V} vs {grid.cell_volumes}")
-    s0 = make_state(L, grid, kind, ranks, case["vseed"])
+    s0 = make_state(L, grid, kind, ranks, case["vseed"], case.get("init", "generic"))
     u0 = s0.data.copy()
     a = full_rates(np, ns, kind, ranks, grid.dim, grid.num_axes)
+    b = ns.get("b", 0.0)
     fd = ns["cls"] in ("mul", "mulnodiff")
-    if fd:
-        var_comp = None
-
-        def var_of(u):
-            return V0 * u**2, 2 * V0 * u
-
-    else:
-        var_comp = full_variances(np, ns, kind, ranks, grid.dim, grid.num_axes)
-        zeros = np.zeros_like(u0)
-        var_arr = var_comp + zeros
-
-        def var_of(u):
-            return var_arr, zeros
-
+    var_of, var_comp = variance_model(np, case, u0, grid)
+    # light: special initial states - only the update and the generator state are compared (reproducibility,
+    # stream continuation, zero-variance components are covered by the generic initial state)
+    light = bool(case.get("light"))
     vanishing = (not fd) and float(np.max(var_comp)) <= 1e-14  # incl. the documented-by-code threshold
     zero_rows = None
     if not fd and not vanishing and bool(np.any(var_comp == 0)):
@@ -466,8 +529,10 @@ def sde_case(case):
         for steps in stepss:
             if only and [dt, steps] != list(only[:2]):
                 continue
-            det, _ = run_solve(make_eq(L, case, None, deterministic=True), s0, case, dt, steps, deterministic=True)
-            n += 1
+            det = None
+            if not light:
+                det, _ = run_solve(make_eq(L, case, None, deterministic=True), s0, case, dt, steps, deterministic=True)
+                n += 1
             per_seed = {}
             for seed in seeds:
                 if only and seed != only[2]:
@@ -480,7 +545,7 @@ def sde_case(case):
                 scale, slack = 1.0, 0.0
                 if not vanishing:
                     xis, ref_state = reference_draws(seed, steps)
-                    exp, oinfo = oracle(np, u0, V, a, var_of, alpha, solver, dt, xis, ret_info=True)
+                    exp, oinfo = oracle(np, u0, V, a, var_of, alpha, solver, dt, xis, b=b, ret_info=True)
                     scale = oinfo["scale"]
                     if solver == "implicit" and fd and alpha != 0:
                         scale *= 10  # nothing is demanded there; leave room for the other reading
@@ -523,7 +588,7 @@ def sde_case(case):
                     if ok:
                         outs.add(f"semi-implicit + field-dependent variance + {interp}: increment only, drift silently omitted")
                     else:
-                        exp2 = oracle(np, u0, V, a, var_of, alpha, solver, dt, xis, implicit_drift=True)
+                        exp2 = oracle(np, u0, V, a, var_of, alpha, solver, dt, xis, b=b, implicit_drift=True)
                         outs.add(
                             f"semi-implicit + field-dependent variance + {interp}: "
                             + ("drift added to the start state" if _close(np, got, exp2, slack=slack)[0] else "neither reading")
@@ -535,6 +600,10 @@ def sde_case(case):
                     outs.add("ok: stochastic update matches")
                 if not same_state(state_after, ref_state):
                     bad("generator state after the run is not that of one draw per step", dt, steps, seed)
+                per_seed[seed] = (got, exp)
+                if light:
+                    keys.append(key)
+                    continue
 
                 # ---- components without variance evolve deterministically ---------------------------
                 if zero_rows is not None:
@@ -552,7 +621,7 @@ def sde_case(case):
                     noisy = ~zero_rows
                     if np.any(got[noisy] == det[noisy]):
                         bad("a component with non-zero variance received no noise", dt, steps, seed)
-                elif np.any(got == det):
+                elif np.any(got == det):  # (generic initial state: the variance is non-zero everywhere)
                     bad("a component with non-zero variance received no noise", dt, steps, seed)
 
                 # ---- reproducibility: same equation object, generator re-assigned --------------------
@@ -584,12 +653,12 @@ def sde_case(case):
                     st2 = np.random.get_state() if numba_backend else eq2.rng.bit_generator.state
                     if not same_state(st2, ref_state):
                         bad("generator state after sequential solves is not that of one draw per step", dt, steps, seed)
-                per_seed[seed] = got
                 keys.append(key)
             ss = sorted(per_seed)
             for i, s1 in enumerate(ss):
                 for s2 in ss[i + 1 :]:
-                    if np.array_equal(per_seed[s1], per_seed[s2]):
+                    # (a state that sits where the variance vanishes legitimately ignores the seed)
+                    if np.array_equal(per_seed[s1][0], per_seed[s2][0]) and not np.array_equal(per_seed[s1][1], per_seed[s2][1]):
                         bad("different seeds give identical results", dt, steps, s1, other=s2)
     return {"v": viol[:10], "n": n, "keys": keys, "outs": sorted(outs), "ref": sorted(set(refs)), "nt": bool(keys),
             "maxrel": list(_MAXREL)}
@@ -735,22 +804,12 @@ def jit_case(case):
     label = _label(case) + "|jit"
     grid = make_grid(case["grid"])
     V = cell_volumes(np, case["grid"])
-    s0 = make_state(L, grid, kind, ranks, case["vseed"])
+    s0 = make_state(L, grid, kind, ranks, case["vseed"], case.get("init", "generic"))
     u0 = s0.data.copy()
     shape = tuple(u0.shape)
     a = full_rates(np, ns, kind, ranks, grid.dim, grid.num_axes)
-    fd = ns["cls"] == "mul"
-    if fd:
-
-        def var_of(u):
-            return V0 * u**2, 2 * V0 * u
-
-    else:
-        zeros = np.zeros_like(u0)
-        var_arr = full_variances(np, ns, kind, ranks, grid.dim, grid.num_axes) + zeros
-
-        def var_of(u):
-            return var_arr, zeros
+    b = ns.get("b", 0.0)
+    var_of, _ = variance_model(np, case, u0, grid)
 
     @nb.njit
     def draw():
@@ -765,7 +824,7 @@ def jit_case(case):
     for seed in SEEDS:
         random_seed(seed)
         scale = max(scale, oracle(np, u0, V, a, var_of, alpha, solver, dt, [draw() for _ in range(max(STEPS))],
-                                  ret_info=True)[1]["scale"])
+                                  b=b, ret_info=True)[1]["scale"])
     sol = SolverBase.from_name(solver, pde=eq, backend="numba", **iter_args(solver, scale))
     stepper = sol.make_stepper(state=s0.copy(), dt=dt)
     viol, keys, n = [], [], 0
@@ -781,7 +840,7 @@ def jit_case(case):
             random_seed(seed)
             xis = [draw() for _ in range(steps)]
             nxt = probe()
-            exp, oinfo = oracle(np, u0, V, a, var_of, alpha, solver, dt, xis, ret_info=True)
+            exp, oinfo = oracle(np, u0, V, a, var_of, alpha, solver, dt, xis, b=b, ret_info=True)
             slack = implicit_slack(np, solver, dt, a, u0.size, scale, oinfo["growth"])
             runs = []
             for _ in range(2):
@@ -798,9 +857,9 @@ def jit_case(case):
                 bad("generator state after the run is not that of one draw per step", steps, seed)
             if not np.array_equal(runs[1][0], got):
                 bad("two runs with the same seed are not bitwise equal", steps, seed)
-            if steps in prev and any(np.array_equal(got, o) for s_, o in prev[steps] if s_ != seed):
+            if steps in prev and any(np.array_equal(got, o) and not np.array_equal(exp, e) for o, e in prev[steps]):
                 bad("different seeds give identical results", steps, seed)
-            prev.setdefault(steps, []).append((seed, got))
+            prev.setdefault(steps, []).append((got, exp))
             keys.append(f"{label}|{dt}|{steps}|{seed}")
     return {"v": viol[:8], "n": n, "keys": keys, "out": "ok: compiled stochastic update matches" if not viol else "violation",
             "maxrel": list(_MAXREL)}
@@ -813,11 +872,11 @@ def _by_name(gname):
 def jit_cases(tier, vseed):
     from checks._grids import geometry
 
-    def mk(gname, kind, nkind, interp, solver, dt):
+    def mk(gname, kind, nkind, interp, solver, dt, init="generic"):
         spec = _by_name(gname)
         ranks = {**STATE_KINDS, **STATE_KINDS_MORE}[kind]
         ns = next(s for s in noise_specs(kind, ranks, geometry(spec)["dim"], "thorough") if s["kind"] == nkind)
-        return {"gname": gname, "grid": spec, "state": kind, "ranks": ranks, "noise": ns, "interp": interp,
+        return {"gname": gname, "grid": spec, "state": kind, "ranks": ranks, "noise": ns, "init": init, "interp": interp,
                 "solver": solver, "dt": dt, "vseed": vseed}
 
     quick = [
@@ -833,6 +892,11 @@ def jit_cases(tier, vseed):
         mk("polar", "scalar", "scalar", "ito", "implicit", 0.1),
         mk("cart", "coll-vs", "per-field", "ito", "implicit", 0.01),
         mk("sph-hole", "vector", "component", "stratonovich", "implicit", 0.1),
+        # special initial states (the stepper is built from the example state)
+        mk("polar", "scalar", "field-dependent-g0g2", "ito", "milstein", 0.1, "zero"),
+        mk("cart", "coll-vs", "field-dependent-drift", "stratonovich", "milstein", 0.1, "zero"),
+        mk("sph-hole", "vector", "field-dependent-g0g2", "anti-ito", "euler", 0.1, "mixed"),
+        mk("aniso", "scalar", "field-dependent-drift", "ito", "implicit", 0.1, "zero"),
     ]
     if tier == "quick":
         return quick
@@ -848,6 +912,13 @@ def jit_cases(tier, vseed):
                 for gname, _ in GRIDS:
                     out.append(mk(gname, kinds[i % len(kinds)], nk, interp, solver, DTS[i % 2]))
                     i += 1
+    for solver in SOLVERS:  # special initial states x variance forms x solver
+        for nk in ("field-dependent", "field-dependent-g0g2", "field-dependent-drift"):
+            for init in INITS[1:]:
+                gname = GRIDS[i % len(GRIDS)][0]
+                out.append(mk(gname, kinds[i % len(kinds)], nk, "ito" if solver == "implicit" else list(ALPHA)[i % 3],
+                              solver, DTS[i % 2], init))
+                i += 1
     seen, uniq = set(), []
     for c in out:
         k = repr(c)
@@ -877,7 +948,7 @@ def main(run):
         maxrel[key] = {"within_1e-12": max(m[0] for m in mr),
                        "semi_implicit_fraction_of_derived_bound_used": max(m[1] for m in mr)}
 
-    cases = [dict(c, **bounds) for c in build_cases(tier, run.seed)]
+    cases = build_cases(tier, run.seed)  # (each case carries its bounds)
     if want("numpy"):
         explore("checks.c13:sde_case", cases, key="numpy", mode="I",
                 part="numpy backend: documented update, replicated generator")
@@ -902,8 +973,12 @@ def main(run):
         run.explore("checks.c13:refusal_case", rcases, mode="I", part="solvers without a stochastic scheme", chunksize=1)
     if want("numba-I"):
         # numba backend with its kernels interpreted: same alphabet; the global legacy generator is seeded
-        nb_bounds = {} if tier == "thorough" else {"dts": [0.1], "seeds": [0, 1]}
-        ncases = [dict(c, backend="numba", **nb_bounds)
+        def nb_bounds(c):
+            if tier == "thorough":
+                return {}
+            return {"dts": [0.1], "seeds": [0] if c.get("light") else [0, 1]}
+
+        ncases = [dict(c, backend="numba", **nb_bounds(c))
                   for c in cases if c["noise"]["kind"] not in ("tiny", "field-dependent-nodiff")]
         explore("checks.c13:sde_case", ncases, key="numba interpreted", mode="I",
                 part="numba backend (interpreted), legacy global generator")
@@ -925,8 +1000,8 @@ def main(run):
         "semi-implicit + field-dependent variance + non-Ito interpretation: nothing demanded (observed: drift omitted silently)",
     ]
     run.notes["largest_accepted_relative_deviation"] = dict(maxrel, tolerance=TOL)
-    run.notes["bounds"] = dict(bounds, solvers=SOLVERS, interpretations=list(ALPHA),
-                               numba_interpreted="dt 0.1, seeds 0-1" if tier == "quick" else "as numpy",
+    run.notes["bounds"] = dict(bounds, special_initial_states=BOUNDS_INIT[tier], solvers=SOLVERS, interpretations=list(ALPHA),
+                               numba_interpreted="dt 0.1, seeds 0-1 (special initial states: seed 0)" if tier == "quick" else "as numpy",
                                compiled="one dt per case, steps 1-3, seeds 0-2")
     return (
         "all (grid incl. non-uniform cell volumes, state kind scalar/vector/tensor/mixed-rank collection, noise kind "
